@@ -207,6 +207,23 @@ def C11(tier, seed):
         "uriEqualsUri both ways against Equal of the projections and against equality of the real recomposed texts; arguments byte-snapshotted; resolution/normalization outputs must have the parsed structure. non-trivial = the two objects differ by origin; distinct by pair")
     return res
 
+def C10(tier, seed):
+    res = Result("C10", "model_checking")
+    out = rundir("C10")
+    exe = vlib.build("asan")
+    m = vlib.model_check("MC_Relativize", cfg="MC_Relativize_t.cfg" if tier == "thorough" else "MC_Relativize.cfg", timeout=3000)
+    res.add_model(m, "MC_Relativize (the relation RelativizeOK is never empty: the function RelativizeIdeal is in it for every (source, base, mode); the closed forms of 'a reference without scheme / with an absolute path can resolve to S' agree with a finite witness search; error codes)")
+    h = vlib.run_harness(exe, ["algebra", "--mode", "removebase", "--n", "400000" if tier == "thorough" else "30000", "--seed", str(seed), "--tier", tier], out, "removebase")
+    res.violations += harness_crash_violations(h, "C10")
+    res.add_stats(vlib.merge_stats(h["stats"]))
+    res.violations += validate_stream(res, "Trace_Algebra", out, "removebase", "C10")
+    res.coverage["rule"] = ("all ordered pairs (source, base) of a universe of absolute URIs: 2 schemes x 7 (thorough 17) authorities incl. user info / port / empty host / IPv4 / IPv6 / IPvFuture differing in one part x 15 (thorough 27) paths with every overlap pattern "
+        "(prefix, equal, trailing empty segments, differing in the last segment only, ':' in the first segment, empty first segment, rootless, dot segments) x query on either side, both modes, both widths, default and recording manager; "
+        "plus random paths sharing prefixes of random length and non-absolute operands. TLC evaluates the relation RelativizeOK on the projected real (source, base, reference): resolves back (specification's resolution), omission of scheme/authority, domain-root form, stability; "
+        "the library's own uriAddBaseUri of the reference is compared too. non-trivial = source text differs from base text; distinct by (source, base, mode)")
+    res.assumptions = ALG_ASSUME + ["spec/UriRelativize.tla: the property is a relation; any reference inside it is accepted"]
+    return res
+
 def _simple(pid, tier, seed, model, model_cfg_q, model_cfg_t, model_note, driver, trace, rule, assumptions, level="model_checking", extra_args=(), also=()):
     res = Result(pid, level)
     out = rundir(pid)
@@ -281,7 +298,7 @@ def C13(tier, seed):
         "freeing URI members twice more must release nothing; all 31 incomplete managers x the 9 manager-taking functions must be rejected with the dedicated code before anything is allocated. non-trivial = every case; distinct by (operation, inputs, mask, manager kind)",
         ["TLC/SANY, CommunityModules", "spec/UriLedger.tla", "recording manager and libc interposition of the harness"])
 
-CHECKS = {"C13": C13, "C14": C14, "C15": C15, "C16": C16, "C17": C17, "C18": C18, "C01": C01, "C02": C02, "C03": C03, "C04": C04, "C05": C05, "C06": C06, "C08": C08, "C09": C09, "C11": C11}
+CHECKS = {"C13": C13, "C14": C14, "C15": C15, "C16": C16, "C17": C17, "C18": C18, "C01": C01, "C02": C02, "C03": C03, "C04": C04, "C05": C05, "C06": C06, "C08": C08, "C09": C09, "C10": C10, "C11": C11}
 
 # ------------------------------------------------------------------ known findings triage, replay
 def triage(pid, violations, kf):
